@@ -19,7 +19,7 @@ def cfg : Cfg :=
     guardAffinity := Gen.C01.guardedMethods.contains "cpu_affinity"
     guardPpid := Gen.C01.guardedMethods.contains "ppid"
     pid0Refused := Gen.C01.pid0Refused
-    negRejected := Gen.C01.negRejected
+    negRejected := Gen.C01.negRejectedPy || Gen.C01.negRejectedC
     rlimitPid0Refused := Gen.C01.rlimitPid0Refused
     sigStop := (Gen.C01.signalMap.lookup "suspend").getD 0
     sigCont := (Gen.C01.signalMap.lookup "resume").getD 0
